@@ -549,6 +549,7 @@ def run(pid, tier):
                         if os.path.exists(os.path.join(b.dir, f)):
                             shutil.copy(os.path.join(b.dir, f), dst)
             chk.violation("option %s: %s" % (o["name"], what), {"kind": kind, "option": o["name"]}, save)
+    compression_groups(chk)
     chk.sample({"rows": sorted(names)[:12], "total_rows": len(ROWS)})
     chk.extra["exhaustive"] = True
     chk.extra["option_rows"] = len(ROWS)
@@ -556,6 +557,85 @@ def run(pid, tier):
     chk.require("cli_identical", 10)
     chk.require("exact_removal", 20)
     return chk
+
+
+# "-C options ... may be freely mixed, and are cumulative": argument lists the manual makes
+# equivalent must give the same scanner, whether written as one option, several, or as %option;
+# combinations it rules out must be refused however they are spelled.
+C_EQUIV = [
+    [["-Caem"], ["-Cem", "-Ca"], ["-Ce", "-Cm", "-Ca"], ["-Ca", "-Cm", "-Ce"], ["-Cae", "-Cm"],
+     "%option align ecs meta-ecs"],
+    [["-Cem"], ["-Ce", "-Cm"], ["-Cm", "-Ce"], [], "%option ecs meta-ecs"],
+    [["-Cfe"], ["-Cf", "-Ce"], ["-Ce", "-Cf"]],
+    [["-CFe"], ["-CF", "-Ce"], ["-Ce", "-CF"]],
+    [["-Cfa"], ["-Cf", "-Ca"], ["-Ca", "-Cf"]],
+    # (%option full / fast are -f / -F, which the manual defines as -Cfr / -CFr)
+    [["-Cfer"], ["-Ce", "-Cf", "-Cr"], ["-Cr", "-Cfe"], "%option full ecs nometa-ecs"],
+    [["-CFer"], ["-CF", "-Cr", "-Ce"], "%option fast ecs nometa-ecs"],
+    [["-Cfar"], ["-Cr", "-Ca", "-Cf"], "%option full align noecs nometa-ecs"],
+    [["-Cfr"], ["-f"], ["--full"], "%option full"],
+    [["-CFr"], ["-F"], ["--fast"], "%option fast"],
+    [["-Cer"], ["-Ce", "-Cr"], ["-Cr", "-Ce"], "%option ecs nometa-ecs read"],
+    [["-Cm"], ["-C", "-Cm"], "%option noecs meta-ecs"],
+    [["-C"], "%option noecs nometa-ecs"],
+]
+C_REFUSED = [["-Cem", "-Cf"], ["-Cfm"], ["-Cm", "-CF"], ["-Cf", "-CF"], ["-CfF"], ["-Ce", "-Cm", "-Cf"],
+             "%option full meta-ecs", "%option full fast"]
+C_SPEC_RULES = ("[a-z]+   return 1;\n[0-9]+   return 2;\n\"if\"|\"in\"   return 3;\n"
+                "[ \\t\\n]+   ;\n.   return 4;\n")
+
+
+def compression_groups(chk):
+    flex = chk.flex("san")
+    d = chk.scratch.sub("cgroups")
+
+    def gen(tag, how):
+        wd = os.path.join(d, tag)
+        os.makedirs(wd, exist_ok=True)
+        optline = how if isinstance(how, str) else ""
+        args = [] if isinstance(how, str) else list(how)
+        sp = os.path.join(wd, "p.l")
+        util.write(sp, spec(optline="", rules=C_SPEC_RULES) if not optline else
+                   spec(optline=optline, rules=C_SPEC_RULES))
+        out = os.path.join(wd, "p.c")
+        cmd, r = runner.flex_generate(flex, sp, out, args, cwd=wd)
+        txt = util.read(out, True).decode("latin1") if (r.rc == 0 and os.path.exists(out)) else None
+        if txt is not None:
+            # the %option line shifts the user's line numbers: compare code only
+            txt = "\n".join(l for l in re.sub(r'#line \d+ ".*"\n', "", txt).split("\n") if l.strip())
+        return r, txt
+    for gi, grp in enumerate(C_EQUIV):
+        ref_r, ref = gen("g%d_0" % gi, grp[0])
+        chk.count(1)
+        if ref is None:
+            chk.violation("option -C: flex failed for %s: %s" % (grp[0], ref_r.err[-300:]),
+                          {"kind": "compression-group", "option": " ".join(grp[0])})
+            continue
+        for k, how in enumerate(grp[1:], 1):
+            r, txt = gen("g%d_%d" % (gi, k), how)
+            chk.count(1)
+            chk.nontriv("cgroup:%s" % (how if isinstance(how, str) else " ".join(how) or "(default)"))
+            if txt != ref:
+                what = "fails (%s)" % r.err.decode("latin1")[-200:] if txt is None else "gives a different scanner"
+                chk.violation("option -C: '%s' must mean the same as '%s' (the -C options are cumulative), "
+                              "but it %s" % (how if isinstance(how, str) else " ".join(how),
+                                             " ".join(grp[0]), what),
+                              {"kind": "compression-group", "option": str(how)})
+            else:
+                chk.feat1("compression_spellings_identical")
+    for k, how in enumerate(C_REFUSED):
+        r, txt = gen("x%d" % k, how)
+        chk.count(1)
+        chk.nontriv("crefused:%s" % (how if isinstance(how, str) else " ".join(how)))
+        if r.rc == 0 or not r.err.strip():
+            chk.violation("option -C: the combination '%s' is ruled out by the manual but flex %s" % (
+                how if isinstance(how, str) else " ".join(how),
+                "accepted it" if r.rc == 0 else "failed without a message"),
+                {"kind": "compression-refusal", "option": str(how)})
+        else:
+            chk.feat1("compression_contradiction_refused")
+    chk.require("compression_spellings_identical", 10)
+    chk.require("compression_contradiction_refused", 4)
 
 
 def replay(d):
